@@ -6,7 +6,7 @@
 From Coq Require Import String.
 From Coq Require Import List Bool Arith NArith ZArith.
 Import ListNotations.
-Require Import Alloc Str IpText JunModel JunProofs G_juniper TextModel ValueProofs.
+Require Import Alloc Str IpText JunModel JunProofs G_juniper TextModel ValueProofs Findings.
 
 Theorem C08_consistent_and_collision_free :
   forall (key : Type) (keq : key -> key -> bool), (forall a b, keq a b = true <-> a = b) ->
@@ -37,6 +37,13 @@ Proof.
   exists c1, c2. repeat split; auto.
 Qed.
 
+(* known findings D11-D13: the full statement is false of the faithful model on these witnesses (replayed on the implementation by the check) *)
+Theorem C08_two_matches_of_one_pattern_share_a_replacement_refuted :
+  exists out lk, rmi (lit "password foo1 then password level 3 bar2") = Done (out, lk) /\
+                 out = lit "password netconanRemoved0 then password netconanRemoved0".
+Proof. exact two_matches_of_one_pattern_get_one_replacement_refuted. Qed.
+
+Print Assumptions C08_two_matches_of_one_pattern_share_a_replacement_refuted.
 Print Assumptions C08_consistent_and_collision_free.
 Print Assumptions C08_known_value_gets_its_stored_replacement.
 Print Assumptions C08_juniper_reencodings_share_their_key.
